@@ -108,6 +108,11 @@ def btryfrom_rows(K):
                 for sw in (64, 128, 192, 256):
                     if sw % sb == 0 and tw % tb == 0:
                         pairs.add((sw // sb, tw // tb))
+            # target widths that are not a whole number of *source* digits (a source digit straddles the target's top)
+            for tw in (24, 40, 48, 72, 80, 96):
+                for sw in (32, 64, 128):
+                    if tw % tb == 0 and sw % sb == 0 and tw % sb != 0:
+                        pairs.add((sw // sb, tw // tb))
             pairs = sorted(pairs)
 
             def mk(kind, Sn=Sn, Tn=Tn):
